@@ -41,6 +41,9 @@ pub struct Case {
     /// next (the affinity changes while the program runs). Code that asks once per call sees a
     /// different — but self-consistent — count per call; code that asks twice within a call does not.
     pub cpu_flip: Option<usize>,
+    /// history: before anything else in the execution, a call that fails the documented way (operands of
+    /// different length). Whatever that call does, it must not spoil the calls after it.
+    pub failed_call_first: bool,
     /// fault: thread creation through `std::thread::Builder` is refused (EAGAIN) from this spawn on
     /// (None = never). The shipped code spawns through `Scope::spawn`, which cannot report failure, so
     /// on it the fault never fires; code that does use `Builder` may refuse loudly (panic) or cope,
@@ -58,6 +61,7 @@ pub struct Case {
 pub struct C16;
 
 const GRID: u64 = 201 * 16;
+const NO_CONCURRENT: &str = "SIMCHECK_C16_NO_CONCURRENT";
 
 fn gen_exact(rng: &mut Rng, len: usize) -> (Vec<f64>, Vec<f64>) {
     let mut v = Vec::with_capacity(len);
@@ -98,7 +102,7 @@ fn gen_float(rng: &mut Rng) -> f64 {
 }
 
 fn gen_general(rng: &mut Rng, len: usize) -> (Vec<f64>, Vec<f64>) {
-    let mode = rng.below(3);
+    let mode = rng.below(5);
     let mut v = Vec::with_capacity(len);
     let mut w = Vec::with_capacity(len);
     for i in 0..len {
@@ -106,6 +110,18 @@ fn gen_general(rng: &mut Rng, len: usize) -> (Vec<f64>, Vec<f64>) {
             0 => {
                 v.push(gen_float(rng));
                 w.push(gen_float(rng));
+            }
+            3 => {
+                // the same data in wildly different units: exponents over +-480, so products reach 2^+-960
+                // (no sum of up to 2^23 of them overflows) — a rescaling "overflow guard" shows here
+                v.push(gen_float(rng) * (2.0f64).powi(rng.range(-420, 420) as i32));
+                w.push(gen_float(rng) * (2.0f64).powi(rng.range(-420, 420) as i32));
+            }
+            4 => {
+                // everything tiny: products are subnormal or underflow to zero (absolute error 2^-1075 each,
+                // covered by the MIN_POSITIVE term of the bound; sums of subnormals are exact)
+                v.push(gen_float(rng) * (2.0f64).powi(-480));
+                w.push(gen_float(rng) * (2.0f64).powi(-480));
             }
             1 => {
                 // same order of magnitude, mixed signs: reassociation shows in the last bits
@@ -345,6 +361,11 @@ fn execute_raw(case: &Case) -> (Vec<ExecReport>, Vec<ExecOut>) {
                 None => verif_seam::num_cpus::set_override(Some(c.cpus)),
             }
         }
+        if c.failed_call_first {
+            let a = Vector::<f64>::create(vec![1.0; c.v.len() + 1]);
+            let b = Vector::<f64>::create(vec![1.0; c.v.len()]);
+            let _ = std::panic::catch_unwind(std::panic::AssertUnwindSafe(|| a.dot_f64(&b)));
+        }
         let other = if c.concurrent {
             let n2 = c.v.len() + 3;
             let want: f64 = (0..n2).map(|i| ((i % 11) as f64 + 1.0) * ((i % 5) as f64 - 2.0)).sum();
@@ -488,7 +509,21 @@ impl Prop for C16 {
         let concurrent = hrng.chance(0.2);
         let refuse_spawns_from = if hrng.chance(0.1) { Some(hrng.usize_below(3 * cpus + 1)) } else { None };
         let cpu_flip = if hrng.chance(0.08) { Some(if hrng.chance(0.5) { 1 } else { hrng.urange(1, 16) }) } else { None };
-        Case { cpus, kind, data_seed, gen_len: len, v, w, probes, decoy_len, mutate, concurrent, refuse_spawns_from, cpu_flip, scheds }
+        // (switched off for a whole pass when the code under test turned out to block on something outside
+        // the seams while a second caller was simulated: see Prop::hang_variant)
+        let concurrent = concurrent && std::env::var(NO_CONCURRENT).is_err();
+        let failed_call_first = hrng.chance(0.1);
+        Case { cpus, kind, data_seed, gen_len: len, v, w, probes, decoy_len, mutate, concurrent, refuse_spawns_from, cpu_flip, failed_call_first, scheds }
+    }
+
+    fn hang_variant(&self, case: &Case) -> Option<(Case, &'static str)> {
+        if case.concurrent {
+            let mut c = case.clone();
+            c.concurrent = false;
+            Some((c, NO_CONCURRENT))
+        } else {
+            None
+        }
     }
 
     fn execute(&self, case: &Case, stats: &mut Stats) -> Verdict {
@@ -532,6 +567,9 @@ impl Prop for C16 {
         }
         if case.cpu_flip.is_some() {
             stats.count("fault.cpu_count_alternates");
+        }
+        if case.failed_call_first {
+            stats.count("probe.history_failed_call_before");
         }
         for r in &reports {
             stats.count("executions");
@@ -793,6 +831,11 @@ impl Prop for C16 {
             c.cpu_flip = None;
             out.push(c);
         }
+        if case.failed_call_first {
+            let mut c = case.clone();
+            c.failed_call_first = false;
+            out.push(c);
+        }
         if let Some(k) = case.refuse_spawns_from {
             let mut c = case.clone();
             c.refuse_spawns_from = None;
@@ -892,6 +935,7 @@ impl Prop for C16 {
             "second_concurrent_caller": case.concurrent,
             "fault_refuse_builder_spawns_from": case.refuse_spawns_from,
             "fault_cpu_count_alternates_with": case.cpu_flip,
+            "history_failed_call_first": case.failed_call_first,
             "schedules": case.scheds.iter().map(|s| s.to_json()).collect::<Vec<_>>(),
         })
     }
@@ -910,6 +954,7 @@ impl Prop for C16 {
             concurrent: v["second_concurrent_caller"].as_bool().unwrap_or(false),
             refuse_spawns_from: v["fault_refuse_builder_spawns_from"].as_u64().map(|x| x as usize),
             cpu_flip: v["fault_cpu_count_alternates_with"].as_u64().map(|x| x as usize),
+            failed_call_first: v["history_failed_call_first"].as_bool().unwrap_or(false),
             scheds: v["schedules"].as_array().map(|a| a.iter().map(SchedSpec::from_json).collect()).unwrap_or_default(),
         }
     }
